@@ -137,7 +137,7 @@ def r3(ctx):
                 continue
             chk = calls[1]
             truth = None
-            for c, tr, _ in p.state.pc:
+            for c, tr, _, _at in p.state.pc:
                 if isinstance(c, tuple) and chk.result in atoms(c):
                     truth = tr
             # switch on the bool result: recorded as Eq fact
@@ -256,7 +256,7 @@ def r4(ctx):
             new_ttl = storefacts.field_of(newv, "header", "time_to_live")
             old_ttl = F(old, "header", "time_to_live")
             data_dep = old_ttl in atoms(new_ttl)
-            ctrl_dep = any(old_ttl in atoms(c) for c, _t, _s in p.state.pc)
+            ctrl_dep = any(old_ttl in atoms(c) for c, _t, _s, _at in p.state.pc)
             rep.sample({"flush path": rewrites, "new_ttl": short(new_ttl), "depends_on_old_ttl": data_dep or ctrl_dep})
             if not (data_dep or ctrl_dep):
                 rep.bad("flush:new-ttl-independent-of-old", "delayed flush sets every item's time_to_live to %s, independent of the item's own TTL: an item whose TTL was shorter than the flush delay lives longer than its TTL (set ttl=5; flush delay=100; get at t=50 hits)" % short(new_ttl), loc_s(e.span))
